@@ -10,6 +10,9 @@ def showOut : Out → String
   | .rejected e => s!"ok rejected {e}"
   | .renewed e => s!"ok renewed {e}"
   | .gotResp e => s!"ok resp {e}"
+  | .faulted => "ok faulted"
+  | .gotFault => "ok fault"
+  | .renewFailed => "ok renew-failed"
 
 def parseOp : List String → Option Op
   | ["cSend"] => some .cSend
@@ -18,6 +21,7 @@ def parseOp : List String → Option Op
   | ["sSend"] => some .sSend
   | ["cStep"] => some .cStep
   | ["cApply"] => some .cApply
+  | ["cRenewSame"] => some .cRenewSame
   | ["cForge", e] => e.toNat?.map .cForge
   | ["sForge", e] => e.toNat?.map .sForge
   | _ => none
@@ -29,6 +33,11 @@ def armOf (s : St) (op : Op) (o : Out) : String :=
   match op, o with
   | .cSend, _ => if s.outstanding then "cSend-during-renew" else "cSend"
   | .sSend, _ => if s.sKey != s.cKey then "sSend-before-client-apply" else "sSend"
+  | .cRenewSame, .idle => "cRenewSame-busy"
+  | .cRenewSame, _ => "cRenewSame"
+  | .sStep, .faulted => "sStep-renew-nonce-reused-fault"
+  | .cStep, .gotFault => "cStep-fault"
+  | .cApply, .renewFailed => "cApply-renew-failed"
   | .cRenew, .idle => "cRenew-busy"
   | .cRenew, _ => "cRenew"
   | .cForge _, _ => "cForge"
